@@ -333,6 +333,37 @@ pub open spec fn assign_prefix(toks: Seq<Token>, k: int) -> bool {
 }
 //@FN in_assignment_prefix
 //@FN format_alias
+// ---- the `alias` builtin's two listings (C17): `alias` prints one line per definition -- every definition, in the form that reads back --, `alias n` prints that line for n ----
+pub struct Command { pub n: i32 }
+pub struct CommandLine { pub n: i32 }
+pub struct CommandResult { pub gid: i32, pub status: i32, pub stdout: String, pub stderr: String }
+#[verifier::external_body]
+pub fn vx_cr_new() -> (r: CommandResult) ensures r.status == 0 { unimplemented!() }
+pub ghost struct PrintLog { pub out: Seq<Seq<char>>, pub err: Seq<Seq<char>> }
+#[verifier::external_body]
+pub proof fn new_printlog() -> (tracked r: PrintLog) ensures r.out.len() == 0, r.err.len() == 0 { unimplemented!() }
+// the builtins' output helpers (contracts in U-BFD: where the text goes); here: which text is handed to them
+#[verifier::external_body]
+pub fn print_stdout_with_capture(info: &str, cr: &mut CommandResult, cl: &CommandLine, cmd: &Command, capture: bool, Tracked(pl): Tracked<&mut PrintLog>)
+    ensures final(pl).out == old(pl).out.push(info@), final(pl).err == old(pl).err
+{ unimplemented!() }
+#[verifier::external_body]
+pub fn print_stderr_with_capture(info: &str, cr: &mut CommandResult, cl: &CommandLine, cmd: &Command, capture: bool, Tracked(pl): Tracked<&mut PrintLog>)
+    ensures final(pl).err == old(pl).err.push(info@), final(pl).out == old(pl).out
+{ unimplemented!() }
+pub uninterp spec fn spec_join_nl(v: Seq<Seq<char>>) -> Seq<char>;
+pub open spec fn strs(v: Seq<String>) -> Seq<Seq<char>> { v.map_values(|x: String| x@) }
+#[verifier::external_body]
+pub fn vx_join_nl(v: &Vec<String>) -> (r: String) ensures r@ == spec_join_nl(strs(v@)) { v.join("\n") }
+#[verifier::external_body]
+pub fn vx_clone_pair_ss(t: &(String, String)) -> (r: (String, String)) ensures r.0@ == t.0@, r.1@ == t.1@ { t.clone() }
+pub open spec fn quote_for(value: Seq<char>) -> char { if value.contains('\'') { '"' } else { '\'' } }
+// the lines of a listing: line i is the definition i of the list, in the form that reads back
+pub open spec fn listing_of(l: Seq<(String, String)>, lines: Seq<Seq<char>>) -> bool {
+    lines.len() == l.len() && forall|i: int| 0 <= i < l.len() ==> (#[trigger] lines[i]) == alias_line(l[i].0@, l[i].1@, quote_for(l[i].1@))
+}
+//@FN show_alias_list
+//@FN show_single_alias
 //@FN expand_one_env
 //@FN expand_alias
 //@FN expand_home
@@ -387,6 +418,29 @@ format_alias = Fn('src/builtins/alias.rs', 'format_alias', ret='r', props=('C17'
               'r@ == alias_line(name@, value@, if value@.contains(\'\\\'\') { \'"\' } else { \'\\\'\' })')],
     hints={'fn-entry': 'lemma_alias_lits();'})
 
+show_list = Fn('src/builtins/alias.rs', 'show_alias_list', ret='r', props=('C17',),
+    pre_rewrites=[Rw('shell::Shell', 'Shell', rule='R0'), Rw('CommandResult::new()', 'vx_cr_new()', rule='R12'), Rw('lines.join("\\n")', 'vx_join_nl(&lines)', rule='R12', why='slice join through a shim (uninterpreted)')],
+    add_params='Tracked(pl): Tracked<&mut PrintLog>', ghost_args={'print_stdout_with_capture': 'Tracked(pl)'},
+    requires=[('C17.pre.show_list.fresh_log', 'old(pl).out.len() == 0 && old(pl).err.len() == 0')],
+    let_types={'lines': 'Vec<String>'},
+    loop_kinds={0: 'value', (0, 'clone'): 'vx_clone_pair_ss(&{})'},
+    ensures=[('C17.listing.the_builtin_prints_one_line_per_definition_every_definition_in_the_form_that_reads_back',
+              'final(pl).err.len() == 0 && final(pl).out.len() == 1 && exists|l: Seq<(String, String)>, ls: Seq<Seq<char>>| '
+              'lists_all(smap(sh.aliases), l) && listing_of(l, ls) && final(pl).out[0] == spec_join_nl(ls)')],
+    loops={0: Loop(invariant=[('C17.inv.show_list.lines', 'lists_all(smap(sh.aliases), __v0@) && lines@.len() == __i0 && pl.out.len() == 0 && pl.err.len() == 0 '
+                                                          '&& forall|i: int| 0 <= i < __i0 ==> (#[trigger] lines@[i])@ == alias_line(__v0@[i].0@, __v0@[i].1@, quote_for(__v0@[i].1@))')])},
+    hints={'after-call:print_stdout_with_capture': 'assert(strs(lines@).len() == lines@.len()); assert(forall|i: int| 0 <= i < lines@.len() ==> (#[trigger] strs(lines@)[i]) == lines@[i]@); assert(listing_of(__v0@, strs(lines@)));'},
+)
+show_single = Fn('src/builtins/alias.rs', 'show_single_alias', ret='r', props=('C17',),
+    pre_rewrites=[Rw('shell::Shell', 'Shell', rule='R0'), Rw('CommandResult::new()', 'vx_cr_new()', rule='R12'),
+                  Rw('format!("cicada: alias: {}: not found", name_to_find)', 'vx_opaque_string()', rule='R4', required=False, why='diagnostic text (opaque)')],
+    add_params='Tracked(pl): Tracked<&mut PrintLog>', ghost_args={'print_stdout_with_capture': 'Tracked(pl)', 'print_stderr_with_capture': 'Tracked(pl)'},
+    requires=[('C17.pre.show_single.fresh_log', 'old(pl).out.len() == 0 && old(pl).err.len() == 0')],
+    ensures=[('C17.listing.alias_n_prints_the_definition_of_n_in_the_form_that_reads_back_or_a_diagnostic',
+              'if smap(sh.aliases).contains_key(name_to_find@) { final(pl).err.len() == 0 && final(pl).out.len() == 1 '
+              '&& final(pl).out[0] == alias_line(name_to_find@, smap(sh.aliases)[name_to_find@], quote_for(smap(sh.aliases)[name_to_find@])) } '
+              'else { final(pl).out.len() == 0 && final(pl).err.len() == 1 }')],
+)
 HME = [
     Rw(r'self\.envs\.get\(', 'vx_hm_get(&self.envs, ', regex=True, required=False, rule='R12', why='HashMap<String,String> op through a shim stated over string views'),
     Rw(r'env::var\(', 'vx_env_var(', regex=True, required=False, rule='R8', why='std::env::var through a shim over the (uninterpreted, constant) process environment'),
@@ -580,7 +634,7 @@ do_expansion = Fn(S, 'do_expansion', add_params='Tracked(tr): Tracked<&mut PassT
               'final(tr).t == old(tr).t || final(tr).t == old(tr).t + seq![0int, 1int, 2int, 3int, 4int, 5int, 6int]')],
 )
 
-UNIT = Unit('U-EXP2', TEMPLATE, fns=[common.has_operator_fn(), common.in_assignment_prefix_fn(), get_user_home, add_alias, is_alias, remove_alias, get_alias_content, get_alias_list, get_env, format_alias, expand_one_env, expand_alias, expand_home, written, expand_env, do_expansion],
+UNIT = Unit('U-EXP2', TEMPLATE, fns=[common.has_operator_fn(), common.in_assignment_prefix_fn(), get_user_home, add_alias, is_alias, remove_alias, get_alias_content, get_alias_list, get_env, format_alias, show_list, show_single, expand_one_env, expand_alias, expand_home, written, expand_env, do_expansion],
             types=[TypeItem('src/types.rs', 'struct', 'LineInfo'), TypeItem('src/types.rs', 'struct', 'Job'),
                    TypeItem('src/shell.rs', 'struct', 'Shell', rewrites=[Rw('types::Job', 'Job', rule='R0')])],
             props=('C17', 'C10', 'C12', 'C13', 'C01', 'C05'))
